@@ -4,6 +4,7 @@ import Proofs.C08.Gen
 import Proofs.C08.Refine
 import Proofs.C08.Sig
 import Proofs.C08.Sim
+import Proofs.C08.Tap
 import Model.C08.Verify
 import Generated.Script
 /-!
@@ -401,6 +402,43 @@ theorem btclib_eval_refines_core_partial (cx : Btclib.Ctx) (script : Bytes) (sta
     (hcov : Sim.covered script = true) (hsz : stack.length ≤ 1000) :
     Btclib.eval cx script stack = Sim.toOut (Core.evalWith (Refine.coreCx cx script) stack 0) :=
   Sim.eval_refines cx script stack hsig hcov hsz
+
+/-- TAPSCRIPT, `_partial`.  FULL statement (NOT proved):
+      ∀ cx script stack budget, BtclibTap.verifyScriptPath cx script stack budget = true ↔
+        Core.executeWitnessScript env stack script .TAPSCRIPT budget = .ok ()
+    where `BtclibTap` (`Model/C08/BtclibTap.lean`) is the btclib-shaped model of `engine/tapscript.py: _run_ops,
+    op_checksig, op_checksigadd, verify_script_path_vc0` and of the pre-scan `taproot.parse(exit_on_op_success=True)`,
+    tied to the real engine by the `bt.tapscript` stream.  PROVED, for every flag set, checker, stack and budget:
+    * OP_CHECKSIG — btclib's `op_checksig` (the two pops, the empty-key refusal, `budget -= 50` for a non-empty signature
+      and the exhausted-budget refusal, the 32-byte-key rule with the shared `checkSchnorr`, the upgradable-key flag,
+      `encode_num(int(bool(signature)))`) leaves the stack and the budget that `EvalChecksigTapscript` followed by
+      `case OP_CHECKSIG`'s push leaves, and refuses when it does (btclib refuses the empty key before spending budget,
+      Core after: the verdict is the same);
+    * the model's dispatch is the list regenerated from the AST of tapscript's `_run_ops`
+      (`Gen.Script.TAPSCRIPT_DISPATCHED`; `switch_covers_the_table` relates that list to Core's switch: no
+      OP_CHECKMULTISIG(VERIFY), no OP_SUCCESSx, OP_CHECKSIGADD present).
+    MISSING for the full statement: the simulation of `BtclibTap.iter` against `Core.step` (the frame lemmas of
+    `Proofs/C08/Sim.lean` are about the legacy loop `Btclib.iter`: count, disabled set and name lookup sit elsewhere in
+    this loop), the OP_CHECKSIGADD expansion `[OP_CHECKSIG, OP_ADD]` with its stack swap against `case OP_CHECKSIGADD`,
+    OP_IF's unconditional minimal-condition rule against TAPSCRIPT_MINIMALIF, `codesep_pos = script_index` against
+    `opcode_pos` through the wind-back, the pre-scan against Core's OP_SUCCESS loop, and the closing clean-stack test. -/
+theorem tapscript_checksig_refines_Core_partial (cx : Core.Ctx) (hsv : cx.sigversion = .TAPSCRIPT) (m : Core.Machine)
+    (sig pk : Bytes) (r : List Bytes) :
+    BtclibTap.opChecksig cx.flags cx.checker (pk :: sig :: r) m.codesepPos m.weightLeft
+      = ((Refine.okOpt (Core.evalChecksigTapscript cx m sig pk)).map fun p => (Core.ofBool p.1 :: r, p.2.weightLeft)) ∧
+    ((List.range 256).filter (fun t => !(0 < t && t ≤ 78))).all
+      (fun t => Gen.Script.TAPSCRIPT_DISPATCHED.contains t == (BtclibTap.kind t != .unknown)) = true :=
+  ⟨Tap.checksig_tapscript cx hsv m sig pk r, by decide +kernel⟩
+
+-- the tapscript model computes: acceptance, the clean-stack rule, OP_SUCCESS ahead of an unreadable push, MINIMALIF, the budget
+example : BtclibTap.verifyScriptPath (demoBt 0) [0x51] [] 0 = true := by decide
+example : BtclibTap.verifyScriptPath (demoBt 0) [0x51, 0x51] [] 0 = false := by decide
+example : BtclibTap.verifyScriptPath (demoBt 0) [0x50, 0x4c] [] 0 = true := by decide
+example : BtclibTap.verifyScriptPath (demoBt 0) [0x4c, 0x50] [] 0 = false := by decide
+example : BtclibTap.verifyScriptPath (demoBt 0) [0x63, 0x51, 0x67, 0x51, 0x68] [[2]] 0 = false := by decide
+example : BtclibTap.opChecksig 0 demoChecker [[7], [9]] 0 49 = none ∧
+    BtclibTap.opChecksig 0 demoChecker [[7], [9]] 0 50 = some ([[1]], 0) ∧
+    BtclibTap.opChecksig 0 demoChecker [[7], []] 0 0 = some ([[]], 0) := by decide
 
 /-- every byte value is one of the op codes the loop-level refinement speaks about -/
 theorem every_opcode_is_covered : (List.range 256).all Sim.coveredCode = true := by decide +kernel
